@@ -75,6 +75,9 @@ class InboxSched(Part):
             ([[1000]], True, 1, "dfs", 0), ([[1, 1000]], False, 1, "dfs", 0), ([[1], [1000]], False, 1, "dfs", 0),
             ([[1, 2, 3], [4, 5]], True, 1, "walk", 300), ([[1, 2], [3, 4], [5, 6]], False, 1, "walk", 300),
             ([[1, 2, 3, 4, 5, 6]], True, 2, "walk", 150), ([[1, 2], [3, 1000], [4]], True, 1, "walk", 200),
+            # a throughput budget of 0 / 1: the worker reaches the yield of run() after its first / second batch
+            ([[1, 2]], False, 1, "dfs", 0, 0), ([[1], [2]], False, 1, "dfs", 0, 0), ([[1, 2, 3]], False, 1, "dfs", 0, 1),
+            ([[1, 2, 3], [4, 5]], False, 1, "walk", 300, 0), ([[1, 2, 3, 4, 5, 6]], True, 1, "walk", 200, 1),
         ]
         t = [
             ([[1, 2], [3]], True, 2, "dfs", 0), ([[1, 2], [3]], False, 1, "dfs", 0),
@@ -82,17 +85,22 @@ class InboxSched(Part):
             ([[1, 1000], [2]], True, 1, "dfs", 0), ([[1, 2], [3, 4]], False, 1, "dfs", 400000),
             ([[1, 2, 3], [4, 5, 6], [7, 8]], True, 1, "walk", 4000), ([[1, 2, 3, 4, 5, 6, 7, 8]], True, 1, "walk", 2000),
             ([[1, 2], [3, 4], [5, 6], [7, 8]], False, 1, "walk", 4000), ([[1, 2, 1000], [3, 4], [5]], True, 1, "walk", 3000),
+            ([[1, 2], [3]], True, 1, "dfs", 0, 0), ([[1, 2, 3], [4, 5, 6], [7, 8]], True, 1, "walk", 4000, 0),
+            ([[1, 2, 3, 4, 5, 6, 7, 8]], False, 1, "walk", 2000, 1),
         ]
         return q + (t if tier == "thorough" else [])
 
     def generate(self, rng, tier):
         out = []
-        for k, (senders, starter, cap, mode, mx) in enumerate(self.configs(tier)):
-            out.append({"input": {"cap": cap, "senders": senders, "starter": starter, "mode": mode,
-                                  "max_execs": mx, "keep": 40 if mode == "dfs" else 60,
-                                  "idle": [k for k, v in ST.items() if v == "Idle"][0],
-                                  "seed": rng.randrange(1 << 30)},
-                        "class": mode})
+        for k, cfg in enumerate(self.configs(tier)):
+            (senders, starter, cap, mode, mx), tp = cfg[:5], (cfg[5] if len(cfg) > 5 else None)
+            inp = {"cap": cap, "senders": senders, "starter": starter, "mode": mode,
+                   "max_execs": mx, "keep": 40 if mode == "dfs" else 60,
+                   "idle": [k for k, v in ST.items() if v == "Idle"][0],
+                   "seed": rng.randrange(1 << 30)}
+            if tp is not None:
+                inp["throughput"] = tp
+            out.append({"input": inp, "class": mode if tp is None else mode + "_small_throughput"})
         return out
 
     def case_coq(self, inp, o, sched=None, trace=None):
